@@ -446,3 +446,53 @@ Proof.
   exists [RTrivia KComment (of_string "--c"); RToken (of_string "x") (Some 1%nat) true].
   vm_compute. split; reflexivity.
 Qed.
+
+(** * C18: the line break after a line comment is the generator's job *)
+
+(** after a comment that the generator classifies as a line comment, the next non-empty token
+    starts on a new line, whatever its recorded line and spacing flag *)
+Theorem line_comment_then_token : forall st c x t l sc, is_single_line_comment c = true ->
+  exists rest, g_out (write_token (write_trivia st KComment c) (x :: t) l sc) = g_out st ++ c ++ 10 :: rest.
+Proof.
+  intros st c x t l sc H. unfold write_trivia. rewrite H. unfold write_token.
+  cbn [set_commenting push_str g_commenting].
+  set (s1 := mk_gstate ((g_out st ++ c) ++ [10]) false (S (g_line st + count_lf c))).
+  assert (E : uncomment (set_commenting (push_str st c) true) = s1) by reflexivity.
+  rewrite E. clear E.
+  destruct l as [l|]; [destruct (sc && needs_space (pad_to s1 l) x)|destruct (sc && needs_space s1 x)];
+    cbn [push_str push_space pad_to g_out]; unfold s1; cbn [g_out g_line];
+    eexists; rewrite <- !app_assoc; cbn [app]; reflexivity.
+Qed.
+
+Theorem line_comment_then_symbol : forall st c x t sc, is_single_line_comment c = true ->
+  exists rest, g_out (write_symbol (write_trivia st KComment c) (x :: t) sc) = g_out st ++ c ++ 10 :: rest.
+Proof.
+  intros st c x t sc H. unfold write_trivia. rewrite H. unfold write_symbol.
+  cbn [set_commenting push_str g_commenting uncomment g_out g_line].
+  eexists. rewrite <- !app_assoc. cbn [app]. reflexivity.
+Qed.
+
+(** but the classification is not the reference lexer's: "--[a[" is a line comment for Lua and a
+    long comment for the generator, which then glues the next token to it *)
+Theorem misclassified_comment_swallows_token :
+  let c := of_string "--[a[" in
+  lex_comment (c ++ [59]) = Some (length (c ++ [59])) /\
+  g_out (run g_init [RToken [49] (Some 1%nat) true; RTrivia KComment c; RToken [59] (Some 1%nat) true])
+    = [49] ++ c ++ [59].
+Proof. vm_compute. split; reflexivity. Qed.
+
+(** a raw push ([push_str("...")], the variadic type pack) is not preceded by the break either *)
+Theorem raw_push_swallowed :
+  let c := of_string "--c" in
+  is_single_line_comment c = true /\
+  g_out (run g_init [RToken [40] (Some 1%nat) true; RTrivia KComment c; RRaw [46; 46; 46]])
+    = [40] ++ c ++ [46; 46; 46].
+Proof. vm_compute. split; reflexivity. Qed.
+
+(** and trivia is written without any spacing check: a "-" token followed by a comment *)
+Theorem minus_glued_to_comment :
+  let c := of_string "-- c" in
+  g_out (run g_init [RToken [97] (Some 1%nat) true; RToken [45] (Some 1%nat) true; RTrivia KComment c])
+    = of_string "a--- c" /\
+  lex_comment (of_string "--- c") = Some 5%nat.
+Proof. vm_compute. split; reflexivity. Qed.
